@@ -54,6 +54,15 @@ def state_ok(d):
                     break
             if why:
                 break
+    if not why:
+        # the combined views `.flags` / `.flag_lines` (errors first, then warnings) of the description and of each tract
+        for o in [d] + list(d.tracts):
+            if o.flags != o.e_flags + o.w_flags or o.flag_lines != o.e_flag_lines + o.w_flag_lines:
+                why = '.flags / .flag_lines are not the error flags followed by the warning flags'
+                break
+            if typed_ok(o.flags, o.flag_lines):
+                why = '.flags / .flag_lines: ' + typed_ok(o.flags, o.flag_lines)
+                break
     if not why and d.desc_is_flawed != (len(d.e_flags) > 0):
         why = 'desc_is_flawed does not agree with the error flags'
     if not why and any(('XXXz' in t.trs or t.trs.endswith('XX')) for t in d.tracts) and not d.e_flags:
